@@ -50,6 +50,8 @@ def exhaustive(maxlen):
     for ses, pid in (("1", "77"), ("2", "88")):
         for typ in "ldo":
             base.append(("A", ses, typ, pid))
+    # the record that ends a session may come from another process of the session (sudo, su, a child)
+    base += [("A", "1", "d", "4077")]
     base += [("A", "", "o", "77"), ("A", "unset", "l", "77")]
     cases = []
     for n in range(1, maxlen + 1):
@@ -83,19 +85,22 @@ def random_history(r, reuse=False, faults=False, maxsess=6):
         if kind == 7:
             recs.append(("A", ses, "o", str(pid)))          # opened by a non-LOGIN record: never tracked
         recs.append(("A", ses, "l", r.choice([str(pid), str(pid), "+" + str(pid), "0" + str(pid)]) if kind != 8 else "x1"))
+        # records of a session come from many processes: only the LOGIN record's PID is the sshd PID
+        def anypid():
+            return r.choice([str(pid), str(pid), str(pid), str(pid + 4000), str(pid + 4001), "", "x"])
         for _ in range(r.below(5)):
-            recs.append(("A", ses, "o", str(pid)))
+            recs.append(("A", ses, "o", anypid()))
         if kind != 6:
-            recs.append(("A", ses, "d", str(pid)))
+            recs.append(("A", ses, "d", anypid()))
             for _ in range(r.below(2)):
-                recs.append(("A", ses, "o", str(pid)))          # stray late records
+                recs.append(("A", ses, "o", anypid()))          # stray late records
         streams.append(recs)
         if kind not in (5, 7):                                   # 5: cron-like, never a login
             streams.append([("L", pid, "user%d" % s, 1 if kind != 9 else r.choice([0, 1]))])
         if reuse and kind < 3:
             # second use of the same PID, strictly after the first use
             ses2 = str(50 + s)
-            recs2 = [("A", ses2, "l", str(pid))] + [("A", ses2, "o", str(pid))] * r.below(3) + [("A", ses2, "d", str(pid))]
+            recs2 = [("A", ses2, "l", str(pid))] + [("A", ses2, "o", anypid())] * r.below(3) + [("A", ses2, "d", anypid())]
             streams.append(("after", len(streams) - 2, len(streams) - 1, recs2, [("L", pid, "second%d" % s, 1)]))
     # noise: records without session
     streams.append([("A", r.choice(["", "unset"]), r.choice("ldo"), "1")] * r.below(3))
